@@ -30,6 +30,11 @@ type wit struct {
 	ffStart int64
 	rounds  int
 	D       int64
+	// positive: an instance of the hypotheses of a PROVED theorem (Properties/C18.v C18_clean_history_converges): the
+	// implementation must show the theorem's conclusion; `still` then says whether it does
+	positive bool
+	// modelOnly: lock-step only, no property monitors (a configuration that is not a cluster: (h) unconnected seed lists)
+	modelOnly bool
 }
 
 func (w *wit) roundsAt(n int, t0 int64) bool {
@@ -45,25 +50,40 @@ func (w *wit) roundsAt(n int, t0 int64) bool {
 func (w *wit) finish(o *lib.Out, ok bool, still func() (bool, string)) {
 	s := w.s
 	in, out := s.Case()
-	o.Case("witness-schedule", true, lib.L(lib.L(lib.N(1000), lib.NI(w.idx))), in)
+	o.Case("witness-schedule", true, lib.L(lib.L(lib.N(1000), lib.NI(w.idx))), lib.LS(s.steps))
 	o.Case("witness-"+w.name, true, in, out)
 	o.Stats["steps"] += len(s.steps)
 	var hits []hit
 	if !ok {
 		hits = append(hits, hit{"harness:network-does-not-drain", "unexplained: witness " + w.name})
 	}
-	hits = append(hits, s.hist.hits...)
-	tail := w.ffStart + int64(w.rounds)*w.D*2/3
-	for _, d := range s.hist.endState(EndCfg{w.D, 1, tail}) {
-		hits = append(hits, hit{d.monitor, d.cause + ": " + d.text})
+	if !w.modelOnly {
+		hits = append(hits, s.hist.hits...)
+		tail := w.ffStart + int64(w.rounds)*w.D*2/3
+		for _, d := range s.hist.endState(EndCfg{w.D, 1, tail}) {
+			hits = append(hits, hit{d.monitor, d.cause + ": " + d.text})
+		}
 	}
 	for _, b := range s.bad {
 		hits = append(hits, hit{"harness:unexpected-call", "unexplained: " + b})
 	}
-	rep, what := still()
+	for _, m := range s.missing {
+		hits = append(hits, hit{"witness-step-missing", "unexplained: the schedule of C18 witness (" + w.name + ") cannot be executed on the implementation as the model executes it: " + m})
+	}
+	rep, what := false, ""
+	func() {
+		defer func() {
+			if x := recover(); x != nil {
+				rep, what = false, fmt.Sprintf("the end state of the witness cannot be inspected (%v): the execution took another course than the model's", x)
+			}
+		}()
+		rep, what = still()
+	}()
 	o.Info["witness_"+w.name+"_reproduces_on_the_implementation"] = rep
 	o.Info["witness_"+w.name+"_observed"] = what
-	if !rep {
+	if !rep && w.positive {
+		hits = append(hits, hit{"proved-instance-fails", "unexplained: the execution (" + w.name + ") satisfies the hypotheses of the proved theorem C18_clean_history_converges but the implementation does not show its conclusion: " + what})
+	} else if !rep {
 		hits = append(hits, hit{"witness-no-longer-fails", "unexplained: the execution of C18 witness (" + w.name + ") no longer shows its defect on the implementation: " + what})
 	}
 	for _, h := range collapse("witness-"+w.name, hits) {
@@ -77,7 +97,7 @@ func witnesses(o *lib.Out) {
 	ns := func(d int64) time.Duration { return time.Duration(d) }
 
 	// (a) two healthy nodes, timeout 300, 40 rounds of length 50
-	{
+	guarded(o, "witness", 1, func() {
 		s := NewSim()
 		w := &wit{s: s, name: "a", idx: 1, ffStart: 1050, rounds: 40, D: 50}
 		s.now = 1000
@@ -96,9 +116,9 @@ func witnesses(o *lib.Out) {
 			_, sHasJ := members(s.nodes[ad1])["j"]
 			return n > 0 && !sHasJ, fmt.Sprintf("%d ClusterMembersChangedEvents in rounds 31..40; after round 40 the seed lists the joiner: %v", n, sHasJ)
 		})
-	}
+	})
 	// (b) failure detection off: s, a, x converge; x crashes; ForceMemberDown(x) at s; 30 rounds
-	{
+	guarded(o, "witness", 2, func() {
 		s := NewSim()
 		w := &wit{s: s, name: "b", idx: 2, ffStart: 1250, rounds: 30, D: 50}
 		s.now = 1000
@@ -120,9 +140,9 @@ func witnesses(o *lib.Out) {
 			_, ax := members(s.nodes[ad2])["x"]
 			return !had && sx && ax, fmt.Sprintf("x listed by s right after ForceMemberDown: %v; 30 rounds later listed by s: %v, by a: %v", had, sx, ax)
 		})
-	}
+	})
 	// (c) the two nodes of (a) with SuspectConfirmDuration 100000
-	{
+	guarded(o, "witness", 3, func() {
 		s := NewSim()
 		w := &wit{s: s, name: "c", idx: 3, ffStart: 1050, rounds: 40, D: 50}
 		s.now = 1000
@@ -136,9 +156,9 @@ func witnesses(o *lib.Out) {
 			l2 := cluster.ComputeLeaderAddr(s.nodes[ad2].actor.XVView())
 			return l1 == ad1 && l2 == ad2, fmt.Sprintf("leader computed by %s: %q, by %s: %q", ad1, l1, ad2, l2)
 		})
-	}
+	})
 	// (d) failure detection off: j (the smaller address) joins the seed s, both converge, j leaves; 30 rounds
-	{
+	guarded(o, "witness", 4, func() {
 		s := NewSim()
 		w := &wit{s: s, name: "d", idx: 4, ffStart: 1250, rounds: 30, D: 50}
 		s.now = 1000
@@ -155,10 +175,10 @@ func witnesses(o *lib.Out) {
 			l := cluster.ComputeLeaderAddr(s.nodes[ad2].actor.XVView())
 			return sj && l == ad1, fmt.Sprintf("30 rounds after the leave the seed lists j: %v and computes the leader %q; %s", sj, l, fmt.Sprint(s.hist.leaveNotes))
 		})
-	}
+	})
 	// (e) failure detection off, seeds s1 and s2: j joins through s1 while s2 is cut off, crashes, restarts under the
 	// same NodeID configured with s2 and joins through it; 30 rounds
-	{
+	guarded(o, "witness", 5, func() {
 		s := NewSim()
 		w := &wit{s: s, name: "e", idx: 5, ffStart: 1150, rounds: 30, D: 50}
 		s.now = 1000
@@ -190,10 +210,10 @@ func witnesses(o *lib.Out) {
 			return e1.Generation == own.Generation && e1.LogicalClock == own.LogicalClock && e1.Timestamp != own.Timestamp,
 				fmt.Sprintf("s1 holds j at (%d,%d) timestamp %d; the running j is at (%d,%d) timestamp %d", e1.Generation, e1.LogicalClock, e1.Timestamp, own.Generation, own.LogicalClock, own.Timestamp)
 		})
-	}
+	})
 	// (c2) failure detection off: j joins s, crashes, restarts under the same NodeID and joins s again; the broadcast of s
 	// reaches j, the one GossipMessage carrying the new incarnation to s is lost; 30 rounds
-	{
+	guarded(o, "witness", 6, func() {
 		s := NewSim()
 		w := &wit{s: s, name: "c2", idx: 6, ffStart: 1250, rounds: 30, D: 50}
 		s.now = 1000
@@ -220,5 +240,76 @@ func witnesses(o *lib.Out) {
 				fmt.Sprintf("s holds j at (%d,%d), the running j is at (%d,%d); vector of s: %s, of j: %s", e.Generation, e.LogicalClock, own.Generation, own.LogicalClock,
 					vvString(cluster.XVDump(s.nodes[ad1].actor.XVView().VersionVector)), vvString(cluster.XVDump(s.nodes[ad2].actor.XVView().VersionVector)))
 		})
-	}
+	})
+	// (g) failure detection off: s and j converge, j crashes; 30 rounds later s still lists j (by design: nothing detects it)
+	guarded(o, "witness", 7, func() {
+		s := NewSim()
+		w := &wit{s: s, name: "g", idx: 7, ffStart: 1250, rounds: 30, D: 50}
+		s.now = 1000
+		s.Start(Cfg{ID: "s", Addr: ad1, Seeds: []string{ad1}})
+		s.now = 1010
+		s.Start(Cfg{ID: "j", Addr: ad2, Seeds: []string{ad1}})
+		ok := w.roundsAt(3, 1050)
+		s.now = 1200
+		s.Crash(ad2)
+		s.hist.ffSince = 1250
+		ok = w.roundsAt(30, 1250) && ok
+		w.finish(o, ok, func() (bool, string) {
+			_, sj := members(s.nodes[ad1])["j"]
+			return sj, fmt.Sprintf("30 rounds after the crash of j (failure detection off) the seed lists j: %v", sj)
+		})
+	})
+	// (i) the islands instance of the convergence theorem: A=[A], B=[B], C=[A,B] joins through A, D=[B]; every GossipMessage of
+	// the start-up phase is lost; ONE canonical fair round; all four must list A, B, C, D
+	guarded(o, "witness", 8, func() {
+		s := NewSim()
+		w := &wit{s: s, name: "i", idx: 8, ffStart: 1050, rounds: 1, D: 50, positive: true}
+		ad4 := "127.0.0.1:4"
+		s.now = 1000
+		s.Start(Cfg{ID: "A", Addr: ad1, Seeds: []string{ad1}})
+		s.now = 1010
+		s.Start(Cfg{ID: "B", Addr: ad2, Seeds: []string{ad2}})
+		s.now = 1020
+		first := ad1
+		s.askOK = func(src, dst string) bool { return true }
+		s.Start(Cfg{ID: "C", Addr: ad3, Seeds: []string{ad1, ad2}})
+		if m := members(s.nodes[ad3]); m["B"] != nil && m["A"] == nil {
+			first = ad2
+			w.idx = 10 // the shuffle of tryJoinSeeds made C ask B first: the model's schedule for that course
+		}
+		s.now = 1030
+		s.Start(Cfg{ID: "D", Addr: ad4, Seeds: []string{ad2}})
+		s.now = 1040
+		for len(s.net) > 0 {
+			s.Drop(0)
+		}
+		s.hist.ffSince = 1050
+		ok := w.roundsAt(1, 1050)
+		w.finish(o, ok, func() (bool, string) {
+			all := true
+			desc := ""
+			for _, a := range []string{ad1, ad2, ad3, ad4} {
+				m := members(s.nodes[a])
+				if len(m) != 4 || m["A"] == nil || m["B"] == nil || m["C"] == nil || m["D"] == nil {
+					all = false
+				}
+				desc += fmt.Sprintf("%s lists %d members; ", a, len(m))
+			}
+			return all, desc + "C joined through " + first
+		})
+	})
+	// (h) two self-seeded nodes and nothing else: lock-step only (not a cluster: the seed lists do not connect them)
+	guarded(o, "witness", 9, func() {
+		s := NewSim()
+		w := &wit{s: s, name: "h", idx: 9, ffStart: 1050, rounds: 30, D: 50, modelOnly: true}
+		s.now = 1000
+		s.Start(Cfg{ID: "A", Addr: ad1, Seeds: []string{ad1}})
+		s.now = 1010
+		s.Start(Cfg{ID: "B", Addr: ad2, Seeds: []string{ad2}})
+		s.hist.ffSince = 1050
+		ok := w.roundsAt(30, 1050)
+		w.finish(o, ok, func() (bool, string) {
+			return len(members(s.nodes[ad1])) == 1 && len(members(s.nodes[ad2])) == 1, "each of the two self-seeded nodes lists only itself"
+		})
+	})
 }
